@@ -349,6 +349,40 @@ def tr_remove_useless(repo, consumed):
     raise TranslateError(f'remove_useless_nodes: nodal data re-attached by {x!r}: not understood')
 
 
+def tr_generate_constraints(repo, consumed):
+    """does _generate_constraints return empty arrays when no column has a
+    prescription (True), or run np.concatenate on an empty list (False: raises)"""
+    txt, tree = _src(repo, 'femio/formats/fistr/write_fistr.py')
+    fn = _find_func(_find_class(tree, 'FistrWriter'), '_generate_constraints')
+    consumed['write_fistr.py:_generate_constraints'] = _region(txt, fn)
+    body = _body_wo_doc(fn)
+    want_head = ['data = constraint_attribute.data', 'ids = constraint_attribute.ids',
+                 'write_ids = []', 'write_dof = []', 'write_data = []']
+    if [ast.unparse(x) for x in body[:5]] != want_head or not isinstance(body[5], ast.For):
+        raise TranslateError('_generate_constraints: unexpected prologue')
+    loop = ast.unparse(body[5])
+    want_loop = ('for index in range(data.shape[-1]):\n'
+                 '    not_nan = ~np.isnan(data[:, index])\n'
+                 '    if not np.any(not_nan):\n        continue\n'
+                 '    write_ids.append(ids[not_nan])\n'
+                 '    write_dof.append(np.stack([[index + 1, index + 1]] * np.sum(not_nan)))\n'
+                 '    write_data.append(data[not_nan, index])')
+    if loop != want_loop:
+        raise TranslateError('_generate_constraints: the column loop changed')
+    rest = body[6:]
+    ret = 'return (np.concatenate(write_ids), np.concatenate(write_dof), np.concatenate(write_data))'
+    if len(rest) == 1 and ast.unparse(rest[0]) == ret:
+        return False
+    if len(rest) == 2 and ast.unparse(rest[1]) == ret and isinstance(rest[0], ast.If) \
+            and ast.unparse(rest[0].test) in ('len(write_ids) == 0', 'not write_ids') \
+            and not rest[0].orelse and len(rest[0].body) == 1 \
+            and isinstance(rest[0].body[0], ast.Return):
+        r = ast.unparse(rest[0].body[0].value)
+        if r == '(np.zeros(0, dtype=int), np.zeros((0, 2), dtype=int), np.zeros(0))':
+            return True
+    raise TranslateError('_generate_constraints: epilogue not understood')
+
+
 def tr_read_array(repo, consumed):
     txt, tree = _src(repo, 'femio/util/string_parser.py')
     cls = _find_class(tree, 'StringSeries')
@@ -373,6 +407,7 @@ def translate(repo):
     ignore, ignore_src = tr_ignore(repo, consumed)
     default_float_fmt = tr_read_array(repo, consumed)
     rebind_by_id = tr_remove_useless(repo, consumed)
+    gen_empty_ok = tr_generate_constraints(repo, consumed)
     if elem_fmt != '%d':
         raise TranslateError(f'element rows are written with {elem_fmt!r}, not %d')
     return {
@@ -381,7 +416,7 @@ def translate(repo):
         'element_header': elem_hdr, 'frac_digits': _fmt_digits(real_fmt, 'write_data'),
         'default_frac_digits': _fmt_digits(default_float_fmt, 'read_array'),
         'element_types': types, 'ignore_pats': ignore, 'ignore_src': ignore_src,
-        'rebind_by_id': rebind_by_id,
+        'rebind_by_id': rebind_by_id, 'gen_empty_ok': gen_empty_ok,
     }, consumed
 
 
@@ -425,6 +460,9 @@ def emit(t):
         '(* fem_data.py remove_useless_nodes: nodal variables re-attached by node id (true) or by',
         '   storage position (false) *)',
         f'Definition rebind_by_id : bool := {"true" if t["rebind_by_id"] else "false"}.',
+        '(* write_fistr.py _generate_constraints: a table without any prescription gives empty',
+        '   arrays (true) or makes np.concatenate raise (false) *)',
+        f'Definition gen_empty_ok : bool := {"true" if t["gen_empty_ok"] else "false"}.',
         '',
     ]
     return '\n'.join(lines)
